@@ -392,18 +392,28 @@ register('C14', 'proof',
          '(CONFIG = first valid candidate in list order; LESS/MOST_LOADED = valid and lexicographically minimal/maximal on '
          '(instance load + requests, node load); *_NODE on (node load, instance load); LOCAL = the local identifier iff '
          'candidate and valid; None iff no valid candidate), the total dispatch of create_strategy, the module-level '
-         'get_supvisors_instance (RUNNING filter + per-strategy optimality over the abstract loads) and get_node.',
-         not_decided=['the sums themselves: get_load(), get_nodes_load() and get_node_load_request_map() are abstracted by '
-                      'ghost quantities L(i), NL(m), NR(m) (assumed contracts GetLoad, GetNodesLoad, GetNodeLoadRequestMap)',
-                      'distribute_to_single_instance / distribute_to_single_node / on_command_added (DESIGN C14.4, '
-                      'Appendix A23) are not under contract yet',
+         'get_supvisors_instance (RUNNING filter + per-strategy optimality over the abstract loads) and get_node; '
+         'get_node_load_request_map returns per machine the SUM of the requests of all its identifiers (loop invariant over '
+         'the engine\'s finite-sum function setsum); ProcessStartCommand.update_identifier.',
+         not_decided=['the sums of get_load() and get_nodes_load() (python sum() over generators) are abstracted by the ghost '
+                      'quantities L(i), NL(m) (assumed contracts GetLoad, GetNodesLoad); get_node_load_request_map() is PROVED '
+                      'to return, per machine, the sum of the requests of all its identifiers (loop invariant over setsum)',
+                      'distribute_to_single_instance / distribute_to_single_node / before / on_command_added (DESIGN C14.4): '
+                      'only their call sites of update_identifier are decided, structurally (pyvc/structural_c14.py) on top '
+                      'of the PROVED contract of ProcessStartCommand.update_identifier (KeyError iff unknown / None target, '
+                      'TypeError iff the target does not know the program) - three findings C14-single-node-*; the '
+                      'deductive contracts (one instance / one node for the whole plan) are drafted but their loop '
+                      'preservation is not decided within the budget (docs/wip_c14_distribution.py, not loaded)',
+                      'ApplicationStatus.possible_identifiers / possible_node_identifiers / get_start_sequence_expected_load '
+                      '(set.intersection(*sets), for/else over sets, sum()) are not under contract',
                       'ties beyond the documented keys (the statement leaves them open)'],
          assumptions=['every instance seen RUNNING has been identified and is filed under its machine in mapper.nodes '
                       '(handshake; precondition placement_pre)',
                       'mapper.nodes lists are duplicate-free (precondition of get_nodes_load; its preservation by '
                       'SupvisorsMapper.identify is a C04 obligation, refuted: finding C04-identify-files-twice)',
                       'Supvisors object graph shape: mapper.supvisors and context.supvisors point back to the root',
-                      'ints are mathematical; dict iteration order = insertion order'])
+                      'ints are mathematical; dict iteration order = insertion order'],
+         extra='pyvc.structural_c14')
 register('C04', 'proof',
          'Per emission: single emission site (AST scan); is_loading_valid <=> node load + node requests + load <= 100; '
          'get_supvisors_instance returns None or a RUNNING candidate whose node keeps spare load, None iff nobody qualifies '
